@@ -614,6 +614,13 @@ def map_runtime_faults(spec):
         elif len(axes) == 2:
             for to in ("nested-list", "1d", "3d"):
                 yield from each("rank-change", {"r": r, "to": to})
+    # the same two faults on a root that ALSO has a (well-formed) default: the supplied value is what must be checked
+    for r, axes in spec["roots"].items():
+        for d in range(len(axes)):
+            for delta in (1, -1):
+                yield "zip-resize", {"r": r, "d": d, "delta": delta, "dflt": True, "start": "none"}
+        if len(axes) in (1, 2):
+            yield "rank-change", {"r": r, "to": "2d" if len(axes) == 1 else "1d", "dflt": True, "start": "none"}
     for form in _storage_forms(spec):
         yield from each("storage-unknown", {"form": form})
     for form in _executor_forms(spec):
@@ -705,6 +712,10 @@ def apply_map_runtime(spec, op, pos):
         raise ValueError(op)
     if want is not None and ref_input_check(spec, inputs) != want:
         return None
+    if pos.get("dflt"):
+        call["with_default"] = pos["r"]
+        call["sub"] += "+root-has-default"
+        call["why"] += f"; {pos['r']!r} also has a well-formed default, which must not replace the supplied value in the check"
     return call
 
 
@@ -876,6 +887,13 @@ def execute(case, ctx=None):  # noqa: C901, PLR0912, PLR0915
             p = ctx.pipeline(bool(call.get("rev")))
         except Exception as e:  # noqa: BLE001
             return [], {"status": "base-failed", "error": f"{type(e).__name__}: {str(e)[:100]}"}
+        if call.get("with_default"):
+            try:
+                p = construct(gen, spec)  # a private pipeline: its defaults are changed
+                with _quiet():
+                    p.update_defaults({call["with_default"]: valid_inputs(gen, spec)[call["with_default"]]})
+            except Exception as e:  # noqa: BLE001
+                return [], {"status": "base-failed", "error": f"{type(e).__name__}: {str(e)[:100]}"}
         kw = {}
         if api == "map":
             good = "dict" if start == "none" else "file_array"
